@@ -260,11 +260,20 @@ def check_convergence(ctx, nmax):
                 sig = "duffy/convergence/%s/test=%s/trial=%s" % (kind, ti, tj)
                 ctx.cover("remap_" + kind, (repr(ti), repr(tj)))
                 ok = True
-                for a, b, n in zip(errs, errs[1:], orders[1:]):
-                    if a > 1e-11 and not (b <= 0.5 * a):
+                # geometric convergence = an envelope C*rho^n with rho <= 1/2: a single order may dip below the envelope (sign change of the
+                # error), so the step test spans two orders and the fitted rate over the points above the rounding floor is tested as well
+                for a, c, n in zip(errs, errs[2:], orders[2:]):
+                    if a > 1e-11 and not (c <= 0.25 * a):
                         ok = False
-                        ctx.violation(sig, case, "no geometric convergence at n=%d: %.2e -> %.2e" % (n, a, b))
+                        ctx.violation(sig, case, "no geometric convergence at n=%d: %.2e -> %.2e over two orders" % (n, a, c))
                         break
+                above = [(n, e) for n, e in zip(orders, errs) if e > 1e-12]
+                if ok and len(above) >= 3:
+                    rate = float(np.exp(np.polyfit([n for n, _ in above], np.log([e for _, e in above]), 1)[0]))
+                    ctx.observe("singular-fitted-rate", rate, 0.5)
+                    if rate > 0.5:
+                        ok = False
+                        ctx.violation(sig, case, "fitted error reduction per order is %.2f > 0.5" % rate)
                 if ok and nmax >= 8:
                     e8 = errs[orders.index(8)]
                     ctx.observe("singular-error-at-n=8(rel)", e8, 1e-6)
